@@ -333,6 +333,8 @@ def _kwargs(inst, var):
 
 def small_enough(inst):
     """instances the exact replica and the vm_compute correspondence handle in milliseconds"""
+    if inst.get("family", "").startswith("work:") or not all(math.isfinite(v) for v in list(inst["c"]) + list(inst["b"]) + [v for r in inst["A"] for v in r]):
+        return False
     return len(inst["c"]) <= 5 and len(inst["b"]) <= 12
 
 
@@ -368,6 +370,9 @@ def run_impl(inst, var, timeout=5, shared=None):
         return orig_mf(solution, int_set, eps)
 
     def push(heap, item):
+        ties["heap_max"] = max(ties.get("heap_max", 0), len(heap) + 1)
+        if len(heap) > 64:
+            return orig_push(heap, item)          # tie detection is for the small instances; keep the big trees fast
         if any(k[0] != item[0] and abs(k[0] - item[0]) < 1e-7 + 2.0**-45 * max(abs(k[0]), abs(item[0])) for k in heap):
             ties["heap"] = True
         return orig_push(heap, item)
@@ -391,7 +396,7 @@ def run_impl(inst, var, timeout=5, shared=None):
     sol = None if r.solution is None else [float(v) for v in r.solution]
     sols = None if r.solutions is None else [[float(v) for v in s] for s in r.solutions]
     return {"status": r.status.name, "solution": sol, "objective": float(r.objective), "nodes": int(r.iterations),
-            "solutions": sols, "lns": rec or None, "float_ties": ties}
+            "solutions": sols, "lns": rec or None, "float_ties": ties, "lp_iters": int(r.evaluations)}
 
 
 # ---------------------------------------------------------------------------------- exact oracle (independent of the model)
@@ -495,7 +500,11 @@ def truth(inst):
     """-> ('UNB',) | ('INF',) | ('OPT', value, point)   exact optimum of the MILP in the direction asked (value = c.x)"""
     if inst.get("known") is not None:
         k = inst["known"]
+        if k[0] != "OPT":
+            return (k[0],)
         return (k[0], F(k[1]), [F(v) for v in k[2]] if k[2] is not None else ["(optimum known by construction)"])
+    if inst.get("reference") is not None:
+        return truth(inst["reference"])                 # e.g. the same problem without its rows of right-hand side +inf
     if relaxation_unbounded(inst):
         return ("UNB",)
     c, A, b, ints = inst["c"], inst["A"], inst["b"], inst["ints"]
@@ -546,7 +555,9 @@ def check_point(inst, x, what):
     for i, row in enumerate(A):
         lhs = sum(a * v for a, v in zip(row, x))
         # TOL plus the round-off of forming the row in doubles (1e-12 relative to the terms: negligible for small data)
-        if lhs > b[i] + TOL + 1e-12 * (abs(b[i]) + sum(abs(a * v) for a, v in zip(row, x))):
+        if math.isinf(b[i]) and b[i] > 0 and math.isfinite(lhs):
+            continue
+        if not lhs <= b[i] + TOL + 1e-12 * (abs(b[i]) + sum(abs(a * v) for a, v in zip(row, x))):
             return f"{what}: row {i} violated ({lhs} > {b[i]}) by {x}"
     return None
 
@@ -554,8 +565,13 @@ def check_point(inst, x, what):
 def judge(inst, var, out, tr):
     """None if the answer obeys the property, else a description."""
     if "fail" in out:
+        if var.get("float_options") and out["fail"][0] == "exc" and out["fail"][1] in ("TypeError", "ValueError"):
+            return None                                     # an integral float where an int is needed may be refused
         return f"solve_milp did not return: {out['fail']}"
     st = out["status"]
+    if tr[0] == "CAP":
+        # the documented LP iteration limit is smaller than the pivots this LP needs: the only honest answer is MAX_ITER
+        return None if (st == "MAX_ITER" and out["solution"] is None) else f"LP iteration limit reached at the root but status {st}"
     gap = var.get("gap_tol")
     gap = 1e-6 if gap is None else gap
     lim_iter = var.get("max_iter") is not None
@@ -705,13 +721,23 @@ def same_as_port(port, out, var):
 # ---------------------------------------------------------------------------------- work item (one instance, all variants)
 def _work(item):
     inst, variants = item
-    tr = truth(inst)
+    import time as _t
+    cpu0 = _t.process_time()
+    try:
+        tr = truth(inst)
+    except (ValueError, OverflowError, ZeroDivisionError):
+        tr = ("UNKNOWN",)                                   # NaN / overflow in the data: only the observation families get here
     outs, verdicts, ports = [], [], []
-    tmo = 5 if small_enough(inst) else 40          # structured large instances take up to ~1 s unloaded
+    tmo = inst.get("timeout") or (5 if small_enough(inst) else 40)          # structured large instances take up to ~1 s unloaded
     for var in variants:
         out = run_impl(inst, var, timeout=tmo)
         outs.append(out)
-        verdicts.append(judge(inst, var, out, tr))
+        try:
+            verdicts.append(judge(inst, var, out, tr))
+        except (OverflowError, ValueError) as e:
+            if not inst.get("family", "").startswith("observation:"):
+                raise
+            verdicts.append(f"not judged ({type(e).__name__} in the exact oracle at this magnitude)")
         if not small_enough(inst):
             ports.append((True, ["large"]))
             continue
@@ -720,7 +746,16 @@ def _work(item):
     grp = judge_group(inst, variants, outs, tr)
     if grp is None:
         grp = alias_check(inst, variants, outs)
+    _CPU[0] = _t.process_time() - cpu0
     return tr, outs, verdicts, ports, grp
+
+
+_CPU = [0.0]
+
+
+def _work_timed(item):
+    r = _work(item)
+    return r, _CPU[0]
 
 
 def _same_out(a, b):
@@ -733,7 +768,7 @@ def _same_out(a, b):
 def alias_check(inst, variants, outs):
     """A: the caller's objects are not modified and the answer does not depend on earlier calls: the first two option sets are run
     again on ONE shared set of input objects in the order v1, v0, v1 and must reproduce the answers of the fresh calls."""
-    if len(variants) < 2 or any("fail" in o for o in outs[:2]):
+    if len(variants) < 2 or any("fail" in o for o in outs[:2]) or inst.get("timeout") or inst.get("family", "").startswith("observation:"):
         return None
     import copy
     ws0 = variants[0].get("warm_start") or variants[1].get("warm_start")
@@ -742,13 +777,51 @@ def alias_check(inst, variants, outs):
     for k in (1, 0, 1):
         var = variants[k]
         sh = shared if var.get("warm_start") is None or var.get("warm_start") == ws0 else shared[:4] + (list(var["warm_start"]),)
-        out = run_impl(inst, var, shared=sh, timeout=5 if small_enough(inst) else 40)
+        out = run_impl(inst, var, shared=sh, timeout=inst.get("timeout") or (5 if small_enough(inst) else 40))
         if shared != before:
             return var, f"solve_milp modified its caller's input objects: {before} -> {shared}"
         if not _same_out(out, outs[k]):
             return var, (f"answer depends on earlier calls / shared input objects: fresh call gave {outs[k].get('status')} "
                          f"{outs[k].get('solution')} {outs[k].get('objective')}, the same call after other calls on the same objects gave "
                          f"{out.get('status')} {out.get('solution')} {out.get('objective')}")
+    # A2: edit the caller's objects IN PLACE between calls (same list objects, same ids, same lengths), call again - with a call of
+    # the module's LP solver on the same objects in between - and compare with a fresh call on a deep copy of the edited input
+    if not all(math.isfinite(v) for v in list(inst["c"]) + list(inst["b"]) + [v for r in inst["A"] for v in r]):
+        return None
+    import random
+    import solvor.simplex as SX
+    rng = random.Random(json.dumps([inst["c"], inst["b"]], default=str))
+    c, A, b, ints, ws = shared
+    edits = []
+    for _ in range(3):
+        kind = rng.choice(["c", "b", "A", "ints"])
+        if kind == "c":
+            j = rng.randrange(len(c)); c[j] = c[j] + rng.choice([-2, -1, 1, 2]); edits.append(f"c[{j}]")
+        elif kind == "b":
+            i = rng.randrange(len(b)); b[i] = b[i] + rng.choice([-1, 1, 2]); edits.append(f"b[{i}]")
+        elif kind == "A":
+            i = rng.randrange(len(b)); j = rng.randrange(len(c))
+            if sum(1 for v in A[i] if v) != 1:                       # keep the explicit box rows (the oracle reads the box off them)
+                A[i][j] = A[i][j] + rng.choice([-1, 1]); edits.append(f"A[{i}][{j}]")
+        elif ints and len(ints) > 1:
+            ints.pop(rng.randrange(len(ints))); edits.append("integers.pop")
+    guarded(SX.solve_lp, c, A, b, minimize=inst["minimize"], timeout=5)
+    var = variants[0]
+    inst2 = {"c": list(c), "A": [list(r) for r in A], "b": list(b), "ints": list(ints), "minimize": inst["minimize"]}
+    fresh = run_impl(inst2, var)
+    again = run_impl(inst2, var, shared=(c, A, b, ints, None if var.get("warm_start") is None else list(var["warm_start"])))
+    if not _same_out(again, fresh):
+        return var, (f"after editing the caller's objects in place ({', '.join(edits)}) the call on the SAME objects gave {again.get('status')} "
+                     f"{again.get('solution')} {again.get('objective')}, a fresh call on a copy of the edited input gave {fresh.get('status')} "
+                     f"{fresh.get('solution')} {fresh.get('objective')} (edited input: c={inst2['c']} A={inst2['A']} b={inst2['b']} ints={inst2['ints']})")
+    try:
+        t2 = truth(inst2) if int_box(inst2) is not None else None
+    except (ValueError, AssertionError):
+        t2 = None
+    if t2 is not None:
+        bad = judge(inst2, var, again, t2)
+        if bad:
+            return var, f"after in-place edits ({', '.join(edits)}): {bad} (edited input: c={inst2['c']} A={inst2['A']} b={inst2['b']} ints={inst2['ints']})"
     return None
 
 
@@ -827,6 +900,30 @@ def _bad(inst, var):
         return False
 
 
+def check_malformed(ctx):
+    """inputs the API must reject (check_matrix_dims / check_integers_valid): the same index listed twice, an index out of range, a
+    non-int index, ragged rows, length mismatch, empty A"""
+    import solvor.milp as M
+
+    cases = [
+        ("duplicate index", ([1, 1], [[1, 1]], [2], [0, 0]), "ValueError"),
+        ("duplicate index (equal but distinct ints)", ([1, 1], [[1, 1]], [2], [1, int("1")]), "ValueError"),
+        ("index out of range", ([1, 1], [[1, 1]], [2], [2]), "ValueError"),
+        ("negative index", ([1, 1], [[1, 1]], [2], [-1]), "ValueError"),
+        ("float index", ([1, 1], [[1, 1]], [2], [1.0]), "TypeError"),
+        ("ragged row", ([1, 1], [[1, 1], [1]], [2, 2], [0]), "ValueError"),
+        ("b too short", ([1, 1], [[1, 1], [1, 0]], [2], [0]), "ValueError"),
+        ("empty A", ([1, 1], [], [], [0]), "ValueError"),
+    ]
+    for name, args, exc in cases:
+        res = guarded(M.solve_milp, *args, timeout=5)
+        ctx.evaluations += 1
+        ok = res[0] == "exc" and res[1] == exc
+        ctx.count("malformed", f"{name}: {'raises ' + exc if ok else res}")
+        if not ok:
+            ctx.violation(f"solve_milp accepts malformed input ({name}): expected {exc}, got {res}", {"kind": "malformed", "args": list(args)})
+
+
 def _corpus():
     out = []
     d = VERIF / "corpus" / "C04"
@@ -843,7 +940,7 @@ def _corpus():
 
 def _norm_var(v):
     base = {"heuristics": True, "warm_start": None, "solution_limit": 1, "lns_iterations": 0, "max_iter": None,
-            "max_nodes": None, "gap_tol": None, "seed": 0, "eps": None, "lns_destroy_frac": None, "form": "list"}
+            "max_nodes": None, "gap_tol": None, "seed": 0, "eps": None, "lns_destroy_frac": None, "form": "list", "float_options": False}
     base.update(v)
     return base
 
@@ -929,9 +1026,30 @@ def run(ctx: Ctx):
                 v["warm_start"] = [float(x) for x in inst["x0"]]
             vs.append(_norm_var(v))
         items.append((inst, [_norm_var({"heuristics": False})] + vs))
+    # ---- round-3 families: W work volume, X float forms / extremes (A2: in _work.alias_check)
+    for inst, vs in FAM.work_instances(ctx.rng, big):
+        items.append((inst, [_norm_var(v) for v in vs]))
+    for _ in range(ctx.budget(20, 200)):
+        base = gen_nontrivial(ctx.rng, False) if ctx.rng.random() < 0.6 else FAM.gen_tiny(ctx.rng)
+        fopts = [{"max_nodes": 50.0, "float_options": True}, {"solution_limit": 3.0, "float_options": True},
+                 {"lns_iterations": 3.0, "float_options": True}, {"max_iter": 7.0, "float_options": True},
+                 {"gap_tol": 0, "eps": 1e-6, "float_options": True}, {"gap_tol": 1, "float_options": True}]
+        items.append((FAM.float_forms(ctx.rng, base), [_norm_var({"heuristics": False}), _norm_var({"form": "tuple"}),
+                                                         _norm_var(ctx.rng.choice(fopts)), _norm_var(ctx.rng.choice(fopts))]))
+        items.append((FAM.inf_rows(ctx.rng, base), [_norm_var({"heuristics": False}), _norm_var({}), _norm_var({"lns_iterations": 3})]))
+        if ctx.rng.random() < 0.5:
+            for inst in FAM.extreme_observations(ctx.rng, base):
+                items.append((inst, [_norm_var({"heuristics": False}), _norm_var({})]))
+    check_malformed(ctx)
     import time as _time
     t_gen = _time.time()
-    results = pmap(_work, items, chunksize=1)
+    timed = pmap(_work_timed, items, chunksize=1)
+    results = [r for r, _ in timed]
+    cpu = {}
+    for (inst, _), (_, sec) in zip(items, timed):
+        k = inst.get("family", "?").split(":")[0] if not inst.get("family", "").startswith("work:") else inst["family"]
+        cpu[k] = round(cpu.get(k, 0.0) + sec, 1)
+    ctx.extra["cpu_s_by_family"] = cpu
     ctx.extra["timing_s"] = {"generation": round(t_gen - ctx.t0, 1), "implementation+oracle+replica": round(_time.time() - t_gen, 1)}
     t_coq = _time.time()
 
@@ -977,6 +1095,15 @@ def run(ctx: Ctx):
             for key in ("form", "eps", "lns_destroy_frac"):
                 if var.get(key) not in (None, "list"):
                     ctx.count("opt_" + key, var[key])
+            if inst.get("family", "").startswith("work:") and "fail" not in out:
+                fam = inst["family"]
+                w = ctx.extra.setdefault("work_max", {})
+                for key, val in (("bb_nodes_explored", out["nodes"]), ("lp_iterations_total", out.get("lp_iters", 0)),
+                                 ("heap_entries", out["float_ties"].get("heap_max", 0))):
+                    w[f"{fam}: {key}"] = max(w.get(f"{fam}: {key}", 0), val)
+                    for thr in (2**7, 2**10, 2**11, 2**12, 10**4, 10**5):
+                        if val > thr:
+                            ctx.count("work_crossed_" + key, f"> {thr}")
             if why == ["large"]:
                 ctx.count("large_instances_judged_by_construction", inst.get("family", "?"))
                 ctx.nontriv(json.dumps([inst["family"], len(inst["c"]), len(inst["b"]), var], sort_keys=True, default=str))
@@ -1104,5 +1231,11 @@ def replay(obj):
             rc = rc or (1 if g else 0)
         print("exact verdict:", [str(v) for v in tr])
         return rc
+    if kind == "malformed":
+        import solvor.milp as M
+
+        res = guarded(M.solve_milp, *obj["args"], timeout=5)
+        print("result:", res)
+        return 0 if res[0] == "exc" else 1
     print("replay names an unchecked obligation:", obj.get("unchecked") or obj.get("what"))
     return 1
